@@ -68,7 +68,9 @@ def with_crash(mix, n):
     return m
 
 
-ENUM = dict(phases=1, enum=2, enum_clients=2, content='pool', between=1, max_images=120)
+# one run must stay well below 4 s even under 16-way load: the run server executes 20 runs per forked child
+# with a 130 s limit
+ENUM = dict(phases=1, enum=1, enum_clients=2, ops_per_client=2, content='pool', between=1, max_images=70)
 
 PROPS = {
     'C07': dict(
@@ -83,34 +85,34 @@ PROPS = {
                 'crash_between_values_of_one_update', 'crash_image_checked', 'real_kill_equals_image', 'purge_deleted_orphans', 'references_checked_during_update',
                 'crash_inside_cross_device_copy'],
         batches=[
-            store('fault-free', 400, 6000, prop='C07', **C07_MIX),
-            store('crash-enum', 110, 1700, prop='C07', **ENUM, **{k: v for k, v in C07_MIX.items() if k != 'content'}),
-            store('crash-enum-cross-device', 60, 900, prop='C07', exdev=True, **ENUM, **{k: v for k, v in C07_MIX.items() if k != 'content'}),
-            store('faults', 300, 5000, prop='C07', crash_mid=(1, 6), enospc=(1, 150), **FAULTS,
+            store('fault-free', 160, 3200, prop='C07', **C07_MIX),
+            store('crash-enum', 48, 960, prop='C07', **ENUM, **{k: v for k, v in C07_MIX.items() if k != 'content'}),
+            store('crash-enum-cross-device', 24, 480, prop='C07', exdev=True, **ENUM, **{k: v for k, v in C07_MIX.items() if k != 'content'}),
+            store('faults', 140, 2800, prop='C07', crash_mid=(1, 6), enospc=(1, 150), **FAULTS,
                   **{k: v for k, v in with_crash(C07_MIX, 3).items()}),
-            store('faults-cross-device', 100, 1500, prop='C07', exdev=True, crash_mid=(1, 6), enospc=(1, 60), **FAULTS,
+            store('faults-cross-device', 40, 800, prop='C07', exdev=True, crash_mid=(1, 6), enospc=(1, 60), **FAULTS,
                   **{k: v for k, v in with_crash(C07_MIX, 3).items()}),
         ],
-        wall=dict(quick=100, thorough=1200),
+        wall=dict(quick=75, thorough=900),
     ),
     'C06': dict(
         level='exploration', rule=STORE_RULE, components=STORE_COMPONENTS, level_text=LT, level_note=LN,
         probes=['load_found_entry', 'load_nothing_matches', 'load_of_parent', 'version_bump', 'reopen', 'remove', 'update_done'],
         batches=[
-            store('fault-free', 560, 9000, prop='C06', **C06_MIX),
-            store('faults', 400, 6500, prop='C06', crash_mid=(1, 8), **FAULTS, **with_crash(C06_MIX, 2)),
-            store('crash-enum', 30, 500, prop='C06', **ENUM, **C06_MIX),
+            store('fault-free', 300, 6000, prop='C06', **C06_MIX),
+            store('faults', 220, 4400, prop='C06', crash_mid=(1, 8), **FAULTS, **with_crash(C06_MIX, 2)),
+            store('crash-enum', 16, 320, prop='C06', **ENUM, **C06_MIX),
         ],
-        wall=dict(quick=100, thorough=1200),
+        wall=dict(quick=75, thorough=900),
     ),
     'C08': dict(
         level='exploration', rule=STORE_RULE, components=STORE_COMPONENTS, level_text=LT, level_note=LN,
         probes=['catalogue_checked_after_reopen', 'next_checked_with_entries', 'remove_with_bystanders', 'reset_with_entries', 'trace_with_entries', 'consume'],
         batches=[
-            store('fault-free', 560, 9000, prop='C08', **C08_MIX),
-            store('faults', 440, 7000, prop='C08', crash_mid=(1, 8), **FAULTS, **with_crash(C08_MIX, 2)),
+            store('fault-free', 320, 6400, prop='C08', **C08_MIX),
+            store('faults', 220, 4400, prop='C08', crash_mid=(1, 8), **FAULTS, **with_crash(C08_MIX, 2)),
         ],
-        wall=dict(quick=100, thorough=1200),
+        wall=dict(quick=75, thorough=900),
     ),
     'C17': dict(
         level='exploration', rule=STORE_RULE, components=STORE_COMPONENTS,
@@ -119,9 +121,9 @@ PROPS = {
         level_note=LN,
         probes=['find_nonempty', 'find_range_nonempty', 'find_via_front_end', 'pages_more_than_one', 'facet_nonempty', 'scrub_checked'],
         batches=[
-            store('fault-free', 560, 9000, prop='C17', **C17_MIX),
-            store('faults', 440, 7000, prop='C17', **FAULTS, **C17_MIX),
+            store('fault-free', 320, 6400, prop='C17', **C17_MIX),
+            store('faults', 220, 4400, prop='C17', **FAULTS, **C17_MIX),
         ],
-        wall=dict(quick=100, thorough=1200),
+        wall=dict(quick=75, thorough=900),
     ),
 }
